@@ -2728,6 +2728,19 @@ def _none_rejecting_uses(ix: Any, it: Any, f: FuncInfo) -> list[tuple[str, ast.A
     return out
 
 
+def _optional_read(e: ast.AST, lc: Any, params: set[str], depth: int = 0) -> bool:
+    """the expression reads an optional field or an optional result where it stands: an attribute, the result of a call, or a local
+    that is only ever assigned (plainly) from such.  A parameter, a loop / unpacking target, an element taken out by subscription:
+    the interpreter's type for these is a join over everything they ever hold (all elements, all bindings) - not decided here."""
+    if isinstance(e, (ast.Attribute, ast.Call)):
+        return True
+    if isinstance(e, ast.Name) and e.id not in params and depth < 4:
+        defs = lc.defs.get(e.id, [])
+        return bool(defs) and all(k == "assign" and v is not None and all(_optional_read(w, lc, params, depth + 1) or isinstance(w, ast.Constant)
+                                                                          for w in _alternatives(v)) for k, _, v in defs)
+    return False
+
+
 def _none_operations(rep: Report, ctx: Any, funcs: list[FuncInfo], validators: list[FuncInfo]) -> None:
     """R06.2 (vii).  Instances: every operation that rejects None (`_none_rejecting_uses`) whose operand is document-derived (abstract
     interpreter) and has None among its abstract types - an optional field of the document, or of a diagnostic / property built from
@@ -2741,12 +2754,13 @@ def _none_operations(rep: Report, ctx: Any, funcs: list[FuncInfo], validators: l
     for f in funcs:
         fl: _Flow | None = None
         lc = None
+        params = {p.arg for p in f.params}
         for what, node, operand in _none_rejecting_uses(ix, it, f):
-            alts = _alternatives(operand)
-            if not any((x := it.node_av.get(id(w))) is not None and "None" in x.types and x.labels & {RAW, RAW_NONSTR, UNKNOWN} for w in alts):
-                continue
             if fl is None:
                 fl, lc = _Flow(f, ix), Locals(f.node)
+            if not any((x := it.node_av.get(id(w))) is not None and "None" in x.types and x.labels & {RAW, RAW_NONSTR, UNKNOWN}
+                       and _optional_read(w, lc, params) for w in _alternatives(operand)):
+                continue
             n_ops += 1
             st = node if isinstance(node, (ast.stmt, ast.ExceptHandler)) else stmt_of(f.node, node)
             hs = handlers_around(f.node, node)
